@@ -1,4 +1,4 @@
 SPECIFICATION GSpec
 CONSTANTS
-  Families = {"A", "B", "C1", "C2", "E", "K"}
+  Families = {"A", "B", "C1", "C2", "E", "K", "R"}
 CHECK_DEADLOCK FALSE
